@@ -35,8 +35,8 @@ ASSUMPTIONS = [
     "tolerance = 64 * 2^-23 * (|L^-1| (|A||x| + |center| + extent) + |y|) (+ 0.5e-6 for default-rounded indices); header fields 64 ulp(float32) of their magnitude scale",
     "directions: signed permutations (det +1 and -1, both accepted by Grid and ITK) and proper generic rotations; CPU only",
 ]
-MIN_NONTRIVIAL = {"quick": 300, "thorough": 1500}
-MIN_OUTCOMES = {"quick": 2000, "thorough": 10000}
+MIN_NONTRIVIAL = {"quick": 400, "thorough": 2500}
+MIN_OUTCOMES = {"quick": 30000, "thorough": 190000}
 MIN_SUB_TRACES = {"construct-origin": 300, "construct-center": 300, "from_sitk": 300, "chain": 300, "file": 300, "gridattrs": 300}
 
 
@@ -209,6 +209,8 @@ def check_grid_maps(sink: Sink, cx: Ctx, sub: str, g, what: str, full: bool = Tr
     def run(call, fn, exp, tol):
         sink.trans()
         st, got = guarded(fn)
+        # an outcome is whatever the implementation returned (right, wrong or raised)
+        sink.outcome(cx.key, sub, what, call, tensor_bytes(got) if st == "ok" else "raises:" + type(got).__name__)
         if st == "raises":
             emit(call, "raises=" + type(got).__name__, exc_text(got))
             return None
@@ -219,12 +221,8 @@ def check_grid_maps(sink: Sink, cx: Ctx, sub: str, g, what: str, full: bool = Tr
         return got
 
     idx32 = torch.tensor(cx.idx, dtype=torch.float32)
-    got = run("index_to_world", lambda: g.index_to_world(idx32), cx.pts, cx.tol_w)
-    if got is not None:
-        sink.outcome(cx.key, sub, "i2w", tensor_bytes(got))
-    got = run("world_to_index", lambda: g.world_to_index(torch.tensor(cx.pts, dtype=torch.float64)), cx.idx_back, cx.tol_i + 0.5e-6)
-    if got is not None:
-        sink.outcome(cx.key, sub, "w2i", tensor_bytes(got))
+    run("index_to_world", lambda: g.index_to_world(idx32), cx.pts, cx.tol_w)
+    run("world_to_index", lambda: g.world_to_index(torch.tensor(cx.pts, dtype=torch.float64)), cx.idx_back, cx.tol_i + 0.5e-6)
     if full:
         run("index_to_world(f64)", lambda: g.index_to_world(torch.tensor(cx.idx, dtype=torch.float64)), cx.pts, cx.tol_w)
         run("world_to_index(f32,decimals=None)", lambda: g.world_to_index(torch.tensor(cx.pts, dtype=torch.float32), decimals=None), cx.idx_back,
